@@ -65,7 +65,7 @@ def need(draw, env):
         n["state"] = draw(st.sampled_from(FLG + NUM))
     elif k == "elapsed":
         n["op"] = draw(st.sampled_from([">=", ">=", ">", "==", "<", "<="]))
-        n["goal"] = draw(st.sampled_from([0.0, 0.125, 0.25, 0.375, 0.5, 1.0]))
+        n["goal"] = draw(st.sampled_from(prof.get("elapsed_goals", [0.0, 0.125, 0.25, 0.375, 0.5, 1.0])))
     elif k == "recurred":
         n["op"] = draw(st.sampled_from([">=", ">=", ">", "==", "<", "<="]))
         n["goal"] = draw(st.integers(0, 4))
@@ -223,7 +223,7 @@ def program(draw, profile=None):
                 elif k == "let":
                     a = {"kind": "let", "needs": draw(needs(env, 1, 2))}
                 elif k == "timeout":
-                    a = {"kind": "timeout", "t": draw(st.sampled_from(["0.125", "0.25", "0.5", "0.375", "1.0", "0"]))}
+                    a = {"kind": "timeout", "t": draw(st.sampled_from(prof.get("timeouts", ["0.125", "0.25", "0.5", "0.375", "1.0", "0"])))}
                 elif k == "repeat":
                     a = {"kind": "repeat", "n": draw(st.integers(0, 4))}
                 elif k == "aux":
@@ -243,7 +243,7 @@ def program(draw, profile=None):
                         tg = [t for t in tg if t != "me"] or [draw(st.sampled_from(tnames))]
                     per = None
                     if verb in ("start", "run", "ready") and draw(st.integers(0, 2)) == 0:
-                        per = draw(st.sampled_from(["0.125", "0.25", "0.5", "0.0"]))
+                        per = draw(st.sampled_from(prof.get("bid_periods", ["0.125", "0.25", "0.5", "0.0"])))
                     a = {"kind": "bid", "verb": verb, "targets": tg, "period": per,
                          "ctx": draw(st.sampled_from(["native", "native", "recur", "exit", "enter"]))}
                 elif k == "done":
